@@ -521,7 +521,9 @@ theorem extractor_rejects_writing_constructors :
 
 /-- **analysis_sound** (the meta-theorem the table theorems rest on, restated here so that it cannot be dropped): for **every**
 program of the language, every world of the caller and every run, either the analysis logs a write into a parameter region (or
-gives up), or its final state covers the final concrete state — in particular no cell of the caller has changed. -/
+gives up), or its final state covers the final concrete state — in particular no cell of the caller has changed.  `widen`, the
+extractor's hint at the head of the loop pass that stands for all later iterations, is a statement like any other: no action in the
+store semantics, a fixpoint of weak updates in the analysis (no bound on the depth of re-binding chains or of walks along links). -/
 theorem analysis_sound (p : Prog) (nIn : Nat) (W : World) (hW : W.ok nIn) (v : Nat) (ch : Nat → Nat) (w : Nat → Nat → Nat) :
     (analyse p nIn v).overflow = true ∨ (∃ r, r < nIn ∧ (analyse p nIn v).writes.testBit r = true) ∨
       ∀ c, c < W.base → (runC p nIn W v ch w).store c = W.store c := by
